@@ -385,7 +385,12 @@ class Registers:
         return result
 
     def set(self, n, value):
-        assert 0 <= n <= 14
+        assert 0 <= n <= 15
+        if n == 15:
+            # only reachable from UNPREDICTABLE encodings (Rd/Rt == PC where the architecture has no
+            # PC-writing form): behave as a simple branch instead of failing
+            self.branch_to(value & (0xFFFFFFFC if self.current_instr_set() == InstrSet.ARM else 0xFFFFFFFE))
+            return
         self.changed_registers[n] = True
         self.set_rmode(n, self.cpsr.m, value)
 
